@@ -82,3 +82,42 @@ contract(
     ensures=ENS,
     name="Residue.__init__", native=False, budget=20000,
 )
+
+
+# ---------------------------------------------------------------- create_atom (a trusted stub in the protocol / placement contracts)
+# what those stubs assume, proved of the real functions: exactly one NEW atom of this residue, under the given name, at the
+# given coordinates, flagged as added, in no cell yet, appended to the list and filed in the map, bonded both ways to the
+# template neighbours that are present; every atom that was there keeps its coordinates
+def FULLATOM(nm, name, bonds=()):
+    return Named(nm, Obj("pdb2pqr.structures:Atom", type=Const("ATOM"), serial=Int, name=Const(name), alt_loc=Const(""),
+                         res_name=Const("SER"), chain_id=Const("A"), res_seq=Int, ins_code=Const(""), x=Real, y=Real, z=Real,
+                         occupancy=Real, temp_factor=Real, seg_id=Const(""), element=Const("C"), charge=Const(""),
+                         mol2charge=Const(None), bonds=Items(*[Ref(b) for b in bonds]), cell=Const(("cell", name))))
+
+
+for _cls, _type in (("pdb2pqr.aa:Amino", "ATOM"), ("pdb2pqr.aa:WAT", "HETATM")):
+    contract(
+        f"{_cls}.create_atom", ["C03", "C05", "C14"],
+        params={"self": Named("res", Obj(_cls.replace("Amino", "SER"), name=Const("SER"),
+                                         atoms=Items(Ref("k_cb"), Ref("k_og")),
+                                         map=DictOf(("CB", FULLATOM("k_cb", "CB", ["k_og"])), ("OG", FULLATOM("k_og", "OG", ["k_cb"]))),
+                                         reference=Obj("pdb2pqr.definitions:DefinitionResidue", map=DictOf(
+                                             ("HG", Named("d_hg", Obj("pdb2pqr.definitions:DefinitionAtom", name=Const("HG"),
+                                                                      bonds=Items(Const("OG"), Const("XX"))))))))),
+                "atomname": Const("HG"), "newcoords": TupleOf(Real, Real, Real)},
+        requires=[],
+        ensures=[
+            "len(res.atoms) == 3 and res.atoms[0] is k_cb and res.atoms[1] is k_og and res.map['HG'] is res.atoms[2]",
+            "res.atoms[2] is not k_cb and res.atoms[2] is not k_og",
+            "res.atoms[2].x == newcoords[0] and res.atoms[2].y == newcoords[1] and res.atoms[2].z == newcoords[2]",
+            f"res.atoms[2].name == 'HG' and res.atoms[2].added == 1 and res.atoms[2].residue is res and res.atoms[2].type == '{_type}'",
+            "res.atoms[2].cell is None",                                   # not in any cell list yet
+            "res.atoms[2].res_seq == k_cb.res_seq and res.atoms[2].chain_id == 'A'",
+            "res.atoms[2].reference is d_hg",
+            "exists(res.atoms[2].bonds, lambda b: b is k_og) and exists(k_og.bonds, lambda b: b is res.atoms[2]) "
+            "and len(res.atoms[2].bonds) == 1 and len(k_cb.bonds) == 1",
+            "k_cb.x == old(k_cb.x) and k_og.x == old(k_og.x) and k_og.z == old(k_og.z)",
+        ],
+        modifies=["res.atoms.*", "res.map.*", "k_og.bonds.*"],
+        name=f"{_cls.split(':')[1]}.create_atom", native=False,
+    )
